@@ -2955,12 +2955,13 @@ func genPools(repo string, tiny bool) (string, []string) {
 	t.tokField = map[string]string{"archNode.neighbors.Get": "nodeNeighborGetF", "archNode.neighbors.Set": "nodeNeighborSetF"}
 	// query iteration (ecs/query.go): the cached-list and node-list walks; the batch walk and the node walk stay parameters
 	t.structs["Query"] = true
+	t.structs["Component"] = true
 	t.structs["batchArchetypes"] = true
 	t.assertExt = map[string]string{"batchArchetypes": "asBatchF"}
 	for _, f := range []string{"Query.countEntities", "Query.Count", "Query.entityAt", "Query.EntityAt", "World.exchangeArch", "World.exchangeBatchNoNotify", "World.setRelationArch", "World.setRelationBatchNoNotify"} {
 		t.joinIf[f] = true
 	}
-	for _, f := range []string{"World.exchangeArch", "World.exchangeBatchNoNotify", "World.setRelationArch", "World.setRelationBatchNoNotify", "World.newEntities", "World.newEntityTarget", "World.copyTo", "World.closeQuery"} {
+	for _, f := range []string{"World.exchangeArch", "World.exchangeBatchNoNotify", "World.setRelationArch", "World.setRelationBatchNoNotify", "World.newEntities", "World.newEntityTarget", "World.copyTo", "World.closeQuery", "World.assign"} {
 		t.usesEff[f] = true
 		t.joinIf[f] = true
 	}
@@ -2982,7 +2983,7 @@ func genPools(repo string, tiny bool) (string, []string) {
 	t.structs["EntityEvent"] = true
 	t.effExt["archetype.Remove"] = "archRemoveF"
 	t.nilChecks = map[string]bool{}
-	for _, f := range []string{"World.closeQuery", "World.copyTo", "World.newEntityTarget", "World.newEntities", "World.exchangeArch", "World.exchangeBatchNoNotify", "World.setRelationArch", "World.setRelationBatchNoNotify", "Query.setArchetype", "Query.stepArchetype", "Query.nextArchetypeSimple", "Query.nextArchetypeFiltered", "Query.nextArchetypeBatch", "Query.nextBatch", "Query.nextNode", "Query.nextNodeOrArchetype", "Query.nextArchetype", "Query.Next",
+	for _, f := range []string{"World.assign", "World.closeQuery", "World.copyTo", "World.newEntityTarget", "World.newEntities", "World.exchangeArch", "World.exchangeBatchNoNotify", "World.setRelationArch", "World.setRelationBatchNoNotify", "Query.setArchetype", "Query.stepArchetype", "Query.nextArchetypeSimple", "Query.nextArchetypeFiltered", "Query.nextArchetypeBatch", "Query.nextBatch", "Query.nextNode", "Query.nextNodeOrArchetype", "Query.nextArchetype", "Query.Next",
 		"Query.countEntities", "Query.Count", "Query.entityAt", "Query.EntityAt", "World.findArchetypeSlow", "World.findOrCreateArchetypeSlow", "World.findOrCreateArchetype", "World.NewEntity", "World.notifyExchange", "World.exchange", "World.newEntitiesNoNotify", "World.removeEntities", "World.getExchangeMask", "World.exchangeNoNotify", "World.createArchetype", "World.setRelation", "World.RemoveEntity", "World.removeArchetype", "World.cleanupArchetype", "World.cleanupArchetypes", "World.createEntity", "World.createEntities", "World.Has", "World.HasUnchecked", "World.Mask",
 		"World.relationError", "World.checkRelation", "World.getRelation", "World.getRelationUnchecked"} {
 		t.nilChecks[f] = true
@@ -3078,7 +3079,7 @@ func genPools(repo string, tiny bool) (string, []string) {
 			fmt.Fprintf(&sb, "def MaskTotalBits : Nat := %s\n\n", k.Val().ExactString())
 		}
 	}
-	for _, s := range []string{"Entity", "entityPool", "bitPool", "lockMask", "componentRegistry", "Resources", "bitSet", "idMap", "intPool", "pointers", "CachedFilter", "cacheEntry", "Cache", "Config", "entityIndex", "EntityDump", "EntityEvent", "World", "batchArchetypes", "Query"} {
+	for _, s := range []string{"Entity", "entityPool", "bitPool", "lockMask", "componentRegistry", "Resources", "bitSet", "idMap", "intPool", "pointers", "CachedFilter", "cacheEntry", "Cache", "Config", "entityIndex", "EntityDump", "EntityEvent", "World", "batchArchetypes", "Query", "Component"} {
 		t.emitStruct(&sb, s)
 	}
 	funcs := []string{
@@ -3100,7 +3101,7 @@ func genPools(repo string, tiny bool) (string, []string) {
 		"Entity.IsZero", "World.removeArchetype", "World.cleanupArchetype", "World.cleanupArchetypes", "World.RemoveEntity",
 		"World.createArchetype", "World.setRelation", "World.getExchangeMask", "World.exchangeNoNotify", "World.removeEntities", "World.newEntitiesNoNotify", "World.notifyExchange", "World.exchange", "World.NewEntity",
 		"World.findArchetypeSlow", "World.findOrCreateArchetypeSlow", "World.findOrCreateArchetype",
-		"batchArchetypes.Get", "batchArchetypes.Len", "batchArchetypes.Add", "World.exchangeArch", "World.exchangeBatchNoNotify", "World.setRelationArch", "World.setRelationBatchNoNotify", "World.newEntities", "World.newEntityTarget", "World.copyTo", "World.closeQuery", "Query.countEntities", "Query.Count", "Query.entityAt", "Query.EntityAt",
+		"batchArchetypes.Get", "batchArchetypes.Len", "batchArchetypes.Add", "World.exchangeArch", "World.exchangeBatchNoNotify", "World.setRelationArch", "World.setRelationBatchNoNotify", "World.newEntities", "World.newEntityTarget", "World.copyTo", "World.closeQuery", "World.assign", "Query.countEntities", "Query.Count", "Query.entityAt", "Query.EntityAt",
 		"Query.checkNext", "Query.setArchetype", "Query.stepArchetype", "Query.nextArchetypeSimple", "Query.nextArchetypeFiltered",
 		"Query.nextArchetypeBatch", "Query.nextBatch", "Query.nextNode", "Query.nextNodeOrArchetype", "Query.nextArchetype", "Query.Next",
 	}
